@@ -141,6 +141,18 @@ C03_ConserveIdeal == (Done /\ Closure = "ghost0") =>
 C01_MMatrix == Done => LET b == Rhs(case) k == Kvec(case, b)
                        IN  \A j \in 1..N : /\ Leq(Zero, k[j])
                                            /\ Leq(One, Diag(k, j))
+\* the rows in the form of MaxPrincipleProof.tla (Stencil / StencilIdeal): checking it on every case ties the TLAPS theorems
+\* (every N, every non-negative k) to this model; the code is tied to the model by the residual clause of the traces (C04)
+ProofRow(k, b, v, j) ==
+    LET left  == IF j > 1 THEN v[j - 1] ELSE Zero      \* ghost value 0 of the ideal class
+        right == IF j < N THEN v[j + 1] ELSE v[j]
+        kr    == IF j < N THEN k[j] ELSE Zero
+    IN  Add(v[j], Add(Mul(k[j], Sub(v[j], left)), Mul(kr, Sub(v[j], right)))) = b[j]
+C01_ProofForm == (Done /\ Closure \in {"dirichlet", "ghost0"}) =>
+                    LET b == Rhs(case) k == Kvec(case, b)
+                    IN  /\ \A j \in 1..N : Leq(Zero, k[j])
+                        /\ Closure = "dirichlet" => u[1] = b[1]
+                        /\ \A j \in (IF Closure = "dirichlet" THEN 2 ELSE 1)..N : ProofRow(k, b, u, j)
 \* C17: only the increment enters a step: the same increment at another time origin gives the same step
 StepAt(c, t0, t1, h2) == LET c2 == [c EXCEPT !.r = Div(Sub(t1, t0), h2)] IN Step(c2)
 C17_ShiftInvariant == Done => \A s \in {R(-3), Q(1, 2), R(1000)} :
